@@ -182,9 +182,15 @@ where
         requires
             is_server_name(domain@),
         ensures
+            // creation records: checked against the contract unit `tls` proves for `TlsStream::new` (tls.new.sni) by the
+            // refinement wrapper `//@ refine link.tlsfuture.tls_stream_new` in units/tls.vxu, where `sni()` / `config()` /
+            // `over()` are DEFINED over the real struct (the `tokio_rustls::Connect` held in state `Handshake`)
             r.sni() == domain@,
             r.config() == config,
             r.over() == stream,
+            // ---- NOT REFINED (no unit proves it): convention of the handshake model of this file - a session that has just
+            // been created has no `poll_handshake` history.  (Unit tls proves `state is Handshake && tls is None`: the
+            // handshake has not started; `m_hs_*` are history variables of the ASSUMED `poll_handshake` below.)
             r.m_hs_polls() == 0 && r.m_hs_last() is None && !r.m_handshaken(),
     { unimplemented!() }
 }
